@@ -8,6 +8,7 @@ import (
 	"time"
 
 	"verifharness/execfam"
+	"verifharness/rep"
 )
 
 func main() {
@@ -15,11 +16,21 @@ func main() {
 		fmt.Println("usage: check <property> <tier> | check dbg-exec <program.json> [prefix-json]")
 		os.Exit(2)
 	}
+	if len(os.Args) >= 3 && os.Args[2] == "--replay" {
+		os.Exit(execfam.ReplayExec(os.Args[3]))
+	}
 	switch os.Args[1] {
+	case "C01", "C02", "C03", "C06", "C07", "C13", "C14":
+		tier := "quick"
+		if len(os.Args) > 2 {
+			tier = os.Args[2]
+		}
+		os.Exit(execfam.CheckExec(os.Args[1], tier))
 	case "worker-exec":
 		execfam.WorkerMain()
 		return
 	case "dbg-dfs":
+		execfam.OpenKFs = rep.LoadFindings().OpenKFs()
 		b, err := os.ReadFile(os.Args[2])
 		if err != nil {
 			panic(err)
